@@ -289,6 +289,8 @@ def run_cli_plan(case, out_name):
     rep = [n for n in sinks if n.endswith(".chr_report.csv")]
     res["report"] = sinks[rep[0]].text() if rep else None
     res["csvs"] = [[n, sinks[n].text()] for n in res["opens"] if n.endswith(".chromosome.list.csv")]
+    ym = [n for n in sinks if n.endswith(".info.yaml")]
+    res["yaml"] = sinks[ym[0]].text() if ym else None
     return res
 
 
